@@ -4,6 +4,7 @@ import (
 	"bytes"
 	"context"
 	"math"
+	"slices"
 	"sync"
 	"time"
 
@@ -294,13 +295,13 @@ func (db *TempPool) OperationHashes(
 		nfilter = func(isaac.PoolOperationRecordMeta) (bool, error) { return true, nil }
 	}
 
-	ops := make([][2]util.Hash, limit)
+	// NOTE limit is not the number of operations in pool; ops grows as operations
+	// are found.
+	var ops [][2]util.Hash
 
 	// NOTE the number of the filtered out operations is not limited by limit
 	var removeordereds [][]byte
 	var removeops []util.Hash
-
-	var opsindex uint64
 
 	facts := map[string]uint64{}
 	defer func() {
@@ -332,13 +333,7 @@ func (db *TempPool) OperationHashes(
 			if prev, found := facts[meta.Fact().String()]; found {
 				removeops = append(removeops, ops[prev][0])
 
-				nops := make([][2]util.Hash, len(ops))
-				copy(nops, ops[:prev])
-				copy(nops[prev:], ops[prev+1:])
-
-				ops = nops
-
-				opsindex--
+				ops = slices.Delete(ops, int(prev), int(prev)+1)
 
 				for i := range facts {
 					if facts[i] > prev {
@@ -347,11 +342,10 @@ func (db *TempPool) OperationHashes(
 				}
 			}
 
-			ops[opsindex] = [2]util.Hash{meta.Operation(), meta.Fact()}
-			facts[meta.Fact().String()] = opsindex
-			opsindex++
+			facts[meta.Fact().String()] = uint64(len(ops))
+			ops = append(ops, [2]util.Hash{meta.Operation(), meta.Fact()})
 
-			if opsindex == limit {
+			if uint64(len(ops)) == limit {
 				return false, nil
 			}
 
@@ -370,7 +364,7 @@ func (db *TempPool) OperationHashes(
 		return nil, e.Wrap(err)
 	}
 
-	return ops[:opsindex], nil
+	return ops, nil
 }
 
 func (db *TempPool) TraverseOperationsBytes(
